@@ -150,6 +150,7 @@ fn full_query(t: &mut Seg, c: u32, d: u32, tq: u8) -> Vec<SV> {
 }
 
 fn parallel<F: Fn(usize, &mut Acc) + Sync>(n_items: usize, threads: usize, prop: &'static str, sys: &str, f: F) -> Acc {
+    let _wd = crate::engine::spawn_watchdog(30);
     let next = AtomicUsize::new(0);
     let total = Mutex::new(Acc::new(prop, sys));
     std::thread::scope(|sc| {
